@@ -176,6 +176,15 @@ pub fn check_pool(pool: &Vec<String>, st: &mut Stats) -> Result<(), Failure> {
             }
         }
     }
+    // serde with JSON that is not a string, and with strings in other JSON positions
+    for js in ["123", "null", "true", "[1,2,3]", "{\"major\":1}", "1.5", "\"\"", "[\"1.2.3\"]", "{\"v\":\"1.2.3\"}"] {
+        g("serde_json::from_str of non-string JSON", &js, || {
+            let _ = serde_json::from_str::<Version>(js).is_ok();
+            let _ = serde_json::from_str::<Range>(js).is_ok();
+            let _ = serde_json::from_str::<Vec<Version>>(js).is_ok();
+            let _ = serde_json::from_str::<std::collections::HashMap<String, Range>>(js).is_ok();
+        })?;
+    }
     // versions built by tuple conversion of non-negative values (incl. beyond MAX_SAFE_INTEGER)
     let extra_v: Vec<(String, Version)> = vec![
         ("Version::from((u64::MAX, 0u64, u64::MAX))".into(), Version::from((u64::MAX, 0u64, u64::MAX))),
